@@ -620,6 +620,12 @@ package dawn
 //@   trusted
 //@   modifies heap
 //@ ghost n_link int threadlocal = 0
+// The index lists every registered target and source - it is what `dawn gc` and `dawn list` load the
+// project from - one summary per entry of the registry itself (not of a filtered view of it).
+//@ func (*dawn.Project).saveIndex variant lists-the-registry
+//@   requires proj != nil
+//@   modifies heap
+//@   loop over proj.targets: step one-summary-per-registered-target: when true ensures len(index.Targets) == old(len(index.Targets)) + 1
 //@ func (*dawn.Project).link variant counted
 //@   trusted
 //@   ensures n_link == old(n_link) + 1
